@@ -250,6 +250,45 @@ def lemma_overload_arity2(p0: int, p1: int, q0: int, q1: int, a: int, b: int) ->
         return exp is None
 
 
+def _bind2(env, sigs, a, b):
+    descs = [ARGS[a][1], ARGS[b][1]]
+    exp = None
+    for k in range(2):
+        if sigs[k] == (descs[0][0], descs[1][0]):
+            exp = k
+            break
+    if exp is None:
+        for k in range(2):
+            if all(spec_coercible(descs[m][0], sigs[k][m], descs[m][1]) for m in range(2)):
+                exp = k
+                break
+    try:
+        r = A.FuncCall(Ident('f'), (ARGS[a][0](), ARGS[b][0]()), SP).evaluate(env)
+        return exp == RETS.index(r.type)
+    except TypeCheckError:
+        return exp is None
+
+
+SIGPAIRS = [((p0, p1), (q0, q1)) for p0 in range(2) for p1 in range(2) for q0 in range(2) for q1 in range(2) if (p0, p1) != (q0, q1)]
+NSP = len(SIGPAIRS)
+
+
+def lemma_overload_history(sp: int, a: int, b: int, c: int, d: int) -> bool:
+    """
+    pre: 0 <= sp < NSP
+    pre: 0 <= a <= 2 and 0 <= b <= 2 and 0 <= c <= 2 and 0 <= d <= 2
+    post: __return__
+    """
+    # the binding of a call does not depend on the calls checked before it (same program, another function body)
+    env = Environment.empty()
+    (p0, p1), (q0, q1) = SIGPAIRS[sp]
+    sigs = [(PT[p0], PT[p1]), (PT[q0], PT[q1])]
+    env.add_funcs([A.BuiltinStub(RETS[k], Ident('f'), sigs[k]) for k in range(2)])
+    first = _bind2(env.new_child(), sigs, a, b)
+    second = _bind2(env.new_child(), sigs, c, d)
+    return first and second
+
+
 def lemma_wrong_arity_rejected(n: int) -> bool:
     """
     pre: 0 <= n <= 3
@@ -264,4 +303,20 @@ def lemma_wrong_arity_rejected(n: int) -> bool:
         return n != 2
 
 
-SPLITS = {'lemma_cast_lattice': ('j', 12), 'lemma_overload_resolution': ('p0', 7)}
+def twin_overload_split(p0: int, a: int) -> bool:
+    """
+    pre: 0 <= p0 < 2 and 0 <= a < NA
+    post: __return__
+    """
+    # vacuity twin of the partitioned lemmas: claims that every call binds to the first declared overload
+    env = Environment.empty()
+    ps = [PT[p0], PT[p0 + 2]]
+    env.add_funcs([A.BuiltinStub(RETS[k], Ident('f'), (ps[k],)) for k in range(2)])
+    try:
+        r = A.FuncCall(Ident('f'), (ARGS[a][0](),), SP).evaluate(env)
+        return RETS.index(r.type) == 0
+    except TypeCheckError:
+        return False
+
+
+SPLITS = {'twin_overload_split': ('p0', 2), 'lemma_cast_lattice': ('j', 12), 'lemma_overload_resolution': ('p0', 7), 'lemma_overload_history': ('sp', 12)}
